@@ -530,8 +530,8 @@ ACCESSORS = {
 }
 
 
-def run(cx, tags=("dev-none-stable", "rel-none-stable")):
-    rule = "R-BULK-AGREE"
+def run(cx, tags=("dev-none-stable", "rel-none-stable"), fields=None, rule_name="R-BULK-AGREE"):
+    rule = rule_name
     cx.rules_run.append(rule)
     rng = random.Random(cx.seed or 1)
     pairs = 0
@@ -558,10 +558,12 @@ def run(cx, tags=("dev-none-stable", "rel-none-stable")):
                 cx.violation(rule, "UNANALYSED|bulk|%s|%s" % (sc, tag), bulk["span"], "bulk view: unsupported construct: %s" % ex)
                 continue
             # token_index: a counter initialised to 0 and incremented once per pushed entry
-            if in_loop:
+            if in_loop and (fields is None or "token_index" in fields):
                 cx.ob(rule, "token_index|counter|%s" % tag, counter_ok(bulk), bulk["span"],
                       "token_index is a counter starting at 0, incremented once per loop iteration")
             for fld in BULK_FIELDS:
+                if fields is not None and fld not in fields:
+                    continue
                 if fld == "token_index":
                     ok = bulk_vals.get(fld) == ("atom", "idx")
                     cx.ob(rule, "%s|%s|%s" % (fld, sc, tag), ok, bulk["span"], "token_index is the running counter" if ok else "token_index is %r" % (bulk_vals.get(fld),))
